@@ -121,7 +121,7 @@ def opt(val):
 def render_snapshot(snap):
     ''' Same layout as Model.TcpclSess.render_state. '''
     flags = [STATE_TAG.get(snap['state'], 0), int(snap['in_conn']), int(snap['in_sess']), int(snap['in_term']),
-             int(snap['closed'])]
+             int(snap['closed']), int(snap['rx_alive'] or snap['closed'])]
     return [
         flags,
         list(snap['rx_buf']), list(snap['msg_tx_buf']), list(snap['conn_tx_buf']),
@@ -158,6 +158,9 @@ class Runner(object):
         self.mops = {'A': [], 'B': []}
         self.snaps = {'A': [], 'B': []}
         self.opres = []
+        self.applied = []   # every driver op, for exact replay
+        self.cfg_a = dict(cfg_a or {})
+        self.cfg_b = dict(cfg_b or {})
 
     def _record(self, e, mop):
         self.mops[e].append(mop)
@@ -170,6 +173,7 @@ class Runner(object):
         ''' Apply a driver op; ops aimed at a closed endpoint are skipped. '''
         sysm = self.sysm
         kind = oper[0]
+        self.applied.append(oper)
         if kind == 'advance':
             sysm.ctx.advance(oper[1])
             for e in ('A', 'B'):
@@ -196,8 +200,10 @@ class Runner(object):
             self._record(e, ('OPop', oper[2]))
         elif kind == 'txpump':
             (_k, _e, which, accept) = oper
+            # a send() towards a closed peer fails: the model sees accept = 0
+            peer_gone = sysm.ep[e].sock.peer.closed
             res = sysm.apply(oper)
-            self._record(e, ('OTxPump', which == 'idle', accept))
+            self._record(e, ('OTxPump', which == 'idle', 0 if peer_gone else accept))
         elif kind == 'rxpump':
             sock = sysm.ep[e].sock
             size = min(oper[2], CHUNK, len(sock.inbox))
@@ -209,6 +215,8 @@ class Runner(object):
             else:
                 data = bytes(sock.inbox[:size])
                 res = sysm.apply(oper)
+                if not res['ran']:
+                    data = b''  # the IO_IN watch is gone: nothing was read
                 self._record(e, ('ORx', data))
         elif kind == 'pq':
             res = sysm.apply(oper)
@@ -252,6 +260,8 @@ def compare(real_full, model_full):
         rst = real_full[idx]
         mst = norm_state(model_full[idx])
         closed = rst[0][4] == 1 and mst[0][4] == 1
+        if closed:
+            mst[0][5] = rst[0][5]  # the watch flag is meaningless once closed
         for (fidx, (rfield, mfield)) in enumerate(zip(rst, mst)):
             if closed and fidx == 4:
                 continue  # live source counts are not compared once closed
@@ -308,7 +318,9 @@ def enabled_ops(runner, rng):
             out.append(('txpump', e, 'io'))
         if sock.inbox or sock.eof:
             out.append(('rxpump', e))
-        if sysm.ctx.find(kind='idle', name='_process_queue', owner=hdl):
+        if sysm.ctx.find(kind='idle', name='_process_queue', owner=hdl) and (
+                hdl._in_sess or (rng is not None and rng.random() < 0.1)):
+            # before the session exists _process_queue only re-arms itself (busy wait)
             out.append(('pq', e))
     return out
 
@@ -361,3 +373,45 @@ def drain(runner, limit=20000, accept=1 << 30, nread=1 << 30):
                 runner.apply(('pq', pick[1]))
             steps += 1
     return steps
+
+
+def replay(cfg_a, cfg_b, applied):
+    ''' Re-run exactly a recorded list of driver ops. '''
+    runner = Runner(cfg_a=cfg_a, cfg_b=cfg_b)
+    for oper in applied:
+        runner.apply(tuple(oper))
+    return runner.finish()
+
+
+def jsonable_ops(applied):
+    out = []
+    for oper in applied:
+        item = []
+        for part in oper:
+            if isinstance(part, (bytes, bytearray)):
+                item.append({'hex': bytes(part).hex()})
+            elif isinstance(part, tuple):
+                item.append({'data': [p.hex() if isinstance(p, (bytes, bytearray)) else p for p in part]})
+            else:
+                item.append(part)
+        out.append(item)
+    return out
+
+
+def unjson_ops(items):
+    out = []
+    for item in items:
+        oper = []
+        for part in item:
+            if isinstance(part, dict) and 'hex' in part:
+                oper.append(bytes.fromhex(part['hex']))
+            elif isinstance(part, dict) and 'data' in part:
+                dat = part['data']
+                if dat[0] == 'lit':
+                    oper.append(('lit', bytes.fromhex(dat[1])))
+                else:
+                    oper.append(tuple(dat))
+            else:
+                oper.append(part)
+        out.append(tuple(oper))
+    return out
